@@ -61,6 +61,13 @@ func placeholderNames(m *ast.MsgNode) string {
 
 // artefact compiles the files in the given order and returns a canonical text of everything observable.
 func artefact(c C13Case, order []int) (art string, imports int, suffixed bool) {
+	art, imports, suffixed, _ = artefact2(c, order)
+	return
+}
+
+// artefact2 also reports whether generating or rendering a second time from the same compiled bundle
+// (in the opposite order, after everything else was generated) reproduces the first result.
+func artefact2(c C13Case, order []int) (art string, imports int, suffixed bool, repeatErr error) {
 	names, srcs := gen.Sources(&c.Prog.Prog)
 	if c.BreakFile >= 0 && c.BreakFile < len(srcs) {
 		srcs[c.BreakFile] += "\n/** */\n{template .zzBroken}{call .zzNoSuchTemplate /}{/template}\n"
@@ -77,10 +84,10 @@ func artefact(c C13Case, order []int) (art string, imports int, suffixed bool) {
 	var b strings.Builder
 	cb, err, pn := compileBundle(on, os_, c.Prog.Prog.Globals)
 	if pn != nil {
-		return fmt.Sprintf("panic: %v", pn), 0, false
+		return fmt.Sprintf("panic: %v", pn), 0, false, nil
 	}
 	if err != nil {
-		return "reject: " + err.Error(), 0, false
+		return "reject: " + err.Error(), 0, false, nil
 	}
 	b.WriteString("accept\n")
 	// message ids and placeholder names, by template
@@ -104,8 +111,10 @@ func artefact(c C13Case, order []int) (art string, imports int, suffixed bool) {
 	}
 	sort.Strings(fqs)
 	msgs := identityBundle(cb)
+	first := map[string]string{}
 	for _, fq := range fqs {
 		rr := cb.render(fq, c.Prog.AllData[fq], c.Prog.IJ, c.Prog.HasIJ)
+		first["render "+fq] = fmt.Sprintf("%q err=%v", rr.out, rr.err != nil)
 		fmt.Fprintf(&b, "render %s: %q err=%v\n", fq, rr.out, rr.err != nil)
 	}
 	// generated JavaScript
@@ -121,6 +130,7 @@ func artefact(c C13Case, order []int) (art string, imports int, suffixed bool) {
 				var buf bytes.Buffer
 				var jerr error
 				p := catch(func() { jerr = soyjs.Write(&buf, f, opts) })
+				first[fmt.Sprintf("js %s formatter=%d msgs=%d", f.Name, fi, bi)] = fmt.Sprintf("err=%v panic=%v\n%s", jerr, p, buf.String())
 				fmt.Fprintf(&b, "js %s formatter=%d msgs=%d err=%v panic=%v\n%s\n", f.Name, fi, bi, jerr, p, buf.String())
 				if fi == 1 {
 					if n := strings.Count(buf.String(), "\nimport ") + strings.Count(buf.String()[:min(7, buf.Len())], "import "); n > imports {
@@ -130,7 +140,32 @@ func artefact(c C13Case, order []int) (art string, imports int, suffixed bool) {
 			}
 		}
 	}
-	return b.String(), imports, suffixed
+	// second use of the same compiled bundle, everything in the opposite order
+	for i := len(files) - 1; i >= 0 && repeatErr == nil; i-- {
+		formatters := []soyjs.JSFormatter{&soyjs.ES5Formatter{}, &soyjs.ES6Formatter{}}
+		for fi := 1; fi >= 0; fi-- {
+			for bi := 1; bi >= 0; bi-- {
+				opts := soyjs.Options{Formatter: formatters[fi]}
+				if bi == 1 {
+					opts.Messages = msgs
+				}
+				var buf bytes.Buffer
+				var jerr error
+				p := catch(func() { jerr = soyjs.Write(&buf, files[i], opts) })
+				key := fmt.Sprintf("js %s formatter=%d msgs=%d", files[i].Name, fi, bi)
+				if again := fmt.Sprintf("err=%v panic=%v\n%s", jerr, p, buf.String()); again != first[key] && repeatErr == nil {
+					repeatErr = fmt.Errorf("generating [%s] a second time from the same compiled bundle gave different JavaScript; first difference at %s", key, firstDiff(first[key], again))
+				}
+			}
+		}
+	}
+	for i := len(fqs) - 1; i >= 0 && repeatErr == nil; i-- {
+		rr := cb.render(fqs[i], c.Prog.AllData[fqs[i]], c.Prog.IJ, c.Prog.HasIJ)
+		if again := fmt.Sprintf("%q err=%v", rr.out, rr.err != nil); again != first["render "+fqs[i]] {
+			repeatErr = fmt.Errorf("rendering %s again after JavaScript generation gave %s, before it gave %s", fqs[i], again, first["render "+fqs[i]])
+		}
+	}
+	return b.String(), imports, suffixed, repeatErr
 }
 
 func sum(s string) string { return fmt.Sprintf("%x", sha256.Sum256([]byte(s)))[:16] }
@@ -193,11 +228,14 @@ var c13rec *recorder
 
 func checkC13(c C13Case) Verdict {
 	n := len(c.Prog.Prog.Files)
-	base, imports, suffixed := artefact(c, identityOrder(n))
+	base, imports, suffixed, repErr := artefact2(c, identityOrder(n))
 	if strings.HasPrefix(base, "panic") {
 		return bad(true, "compile panicked: %s", base)
 	}
 	names, srcs := gen.Sources(&c.Prog.Prog)
+	if repErr != nil {
+		return bad(true, "%v\n%s", repErr, showSources(names, srcs))
+	}
 	reps := scale(12, 30)
 	for i := 0; i < reps; i++ {
 		if again, _, _ := artefact(c, identityOrder(n)); again != base {
